@@ -10,13 +10,13 @@ Definition not32 (x : N) := W - 1 - x.   (* !x for x < 2^32 *)
 Definition from_index (i : N) := wrap (2 * i).
 Definition from_var (v : N) := from_index (wrap (v + 1)).
 Definition from_input (i : N) := from_index (not32 i).
-Definition index (s : N) := s / 2.
-Definition is_const (s : N) := index s =? 0.
+Definition sig_index (s : N) := s / 2.
+Definition is_const (s : N) := sig_index s =? 0.
 Definition is_input (s : N) := negb (N.land s MAGIC =? 0).
 Definition is_var (s : N) := negb (is_input s) && negb (is_const s).
 Definition is_negated (s : N) := negb (N.land s 1 =? 0).
-Definition var (s : N) := index s - 1.
-Definition input (s : N) := N.land (not32 (index s)) (not32 MAGIC).
+Definition sig_var (s : N) := sig_index s - 1.
+Definition sig_input (s : N) := N.land (not32 (sig_index s)) (not32 MAGIC).
 Definition snot (s : N) := N.lxor s 1.
 
 (* bridging lemmas: the three bit operations in arithmetic form *)
@@ -53,20 +53,20 @@ Ltac bsolve := repeat match goal with
 
 Theorem var_roundtrip v : v <= 1073741822 ->            (* 2^30 - 2 *)
   let s := from_var v in
-  s < W /\ var s = v /\ is_var s = true /\ is_input s = false /\ is_const s = false /\ is_negated s = false.
+  s < W /\ sig_var s = v /\ is_var s = true /\ is_input s = false /\ is_const s = false /\ is_negated s = false.
 Proof.
   intros Hv s. assert (Es : s = 2 * (v + 1)) by (unfold s, from_var, from_index, wrap, W; lia).
   assert (Hs : s < W) by (unfold W; lia).
-  unfold var, is_var, is_const, is_negated, index. rewrite is_input_spec, land1 by assumption. unfold MAGIC.
+  unfold sig_var, is_var, is_const, is_negated, sig_index. rewrite is_input_spec, land1 by assumption. unfold MAGIC.
   rewrite Es. splits; try (unfold W; lia); bsolve.
 Qed.
 Theorem input_roundtrip i : i <= 1073741823 ->          (* 2^30 - 1 *)
   let s := from_input i in
-  s < W /\ input s = i /\ is_input s = true /\ is_var s = false /\ is_const s = false /\ is_negated s = false.
+  s < W /\ sig_input s = i /\ is_input s = true /\ is_var s = false /\ is_const s = false /\ is_negated s = false.
 Proof.
   intros Hi s. assert (Es : s = 2 * (W - 1 - i) - W) by (unfold s, from_input, from_index, not32, wrap, W; lia).
   assert (Hs : s < W) by (unfold W in *; lia).
-  unfold input, is_var, is_const, is_negated, index. rewrite is_input_spec, land1, land_low31 by assumption.
+  unfold sig_input, is_var, is_const, is_negated, sig_index. rewrite is_input_spec, land1, land_low31 by assumption.
   unfold not32, MAGIC, W in *. rewrite Es. splits; try lia; bsolve.
 Qed.
 (* every 32-bit signal is in exactly one class *)
@@ -75,12 +75,12 @@ Theorem classes s : s < W ->
   (is_const s = false /\ is_input s = true /\ is_var s = false) \/
   (is_const s = false /\ is_input s = false /\ is_var s = true).
 Proof.
-  intro Hs. unfold is_var, is_const, index. rewrite is_input_spec by assumption. unfold MAGIC, W in *.
+  intro Hs. unfold is_var, is_const, sig_index. rewrite is_input_spec by assumption. unfold MAGIC, W in *.
   destruct (N.eqb_spec (s / 2) 0), (N.leb_spec 2147483648 s); cbn; auto. exfalso; lia.
 Qed.
 (* complement flips the polarity bit only, and is an involution *)
 Theorem not_spec s : s < W ->
-  snot s < W /\ snot (snot s) = s /\ index (snot s) = index s /\ is_negated (snot s) = negb (is_negated s) /\
+  snot s < W /\ snot (snot s) = s /\ sig_index (snot s) = sig_index s /\ is_negated (snot s) = negb (is_negated s) /\
   is_input (snot s) = is_input s /\ is_const (snot s) = is_const s /\ is_var (snot s) = is_var s.
 Proof.
   intro Hs. unfold snot. destruct (lxor1 s) as [He Ho].
@@ -90,7 +90,7 @@ Proof.
     - specialize (Ho eq_refl). assert (N.odd s = true) by (rewrite <- N.negb_even, E; reflexivity). apply N.odd_spec in H. destruct H as [q ->].
       assert (N.lxor (2 * q + 1) 1 = 2 * q) by lia. rewrite H. splits; try lia; bsolve. }
   destruct Hi as (H1 & H2 & H3 & H4).
-  unfold is_var, is_const, is_negated, index. rewrite !is_input_spec, !land1 by assumption. unfold MAGIC. rewrite H2, H3, H4.
+  unfold is_var, is_const, is_negated, sig_index. rewrite !is_input_spec, !land1 by assumption. unfold MAGIC. rewrite H2, H3, H4.
   splits; auto.
   - destruct (lxor1 (N.lxor s 1)) as [He' Ho']. destruct (N.even s) eqn:E.
     + assert (N.even (N.lxor s 1) = false) by (rewrite (He eq_refl), N.even_add; rewrite E; reflexivity). specialize (Ho' H). rewrite (He eq_refl) in Ho' at 2. lia.
